@@ -139,11 +139,17 @@ func (c *Col) typeText() string {
 		s += "?"
 	}
 	var at []string
+	// the code reads these two tags case-insensitively (strings.EqualFold in isAutoIncrementAndPrimaryKey): a quarter of
+	// the columns spell them in upper or mixed case, chosen by the column's name so that a version chain stays stable
+	h := 0
+	for i := 0; i < len(c.Name); i++ {
+		h += int(c.Name[i])
+	}
 	if c.PK {
-		at = append(at, "~pk")
+		at = append(at, "~"+[]string{"pk", "pk", "PK", "Pk"}[h%4])
 	}
 	if c.Auto {
-		at = append(at, "~autoinc")
+		at = append(at, "~"+[]string{"autoinc", "AutoInc", "autoinc", "AUTOINC"}[h%4])
 	}
 	if len(at) > 0 {
 		s += " [" + strings.Join(at, ", ") + "]"
